@@ -1,5 +1,4 @@
-import SciVerif.Drive.Util
-open Lean SciVerif.Drive
+import SciVerif.Drive.C16
+open SciVerif.Drive
 
-/-- C16 model driver: not built yet. -/
-def main : IO Unit := serve (fun _ => throw "C16: no model yet")
+def main : IO Unit := serve SciVerif.C16.Drive.handle
